@@ -79,6 +79,8 @@ type VC struct {
 	quantDepth int // >0 while the body of a quantifier is being translated
 	asserted   map[string]bool
 	liveSplits int
+	usedContracts map[string]bool
+	namedFns   map[string]*types.Func
 	defs       map[string]string
 	patMemo    map[string]bool
 }
@@ -253,6 +255,31 @@ func (vc *VC) query(o *Obligation) string {
 	}
 	b.WriteString("(assert (not " + o.Goal.S + "))\n(check-sat)\n")
 	if len(o.Values) > 0 && o.Expect == "" {
+		b.WriteString("(get-value (")
+		for i, v := range o.Values {
+			if i > 0 {
+				b.WriteString(" ")
+			}
+			b.WriteString(v.T.S)
+		}
+		b.WriteString("))\n")
+	}
+	return b.String()
+}
+
+// relaxedQuery: the obligation's query with every quantified hypothesis removed (model finding only).
+func (vc *VC) relaxedQuery(o *Obligation) string {
+	var b strings.Builder
+	b.WriteString(prelude)
+	for _, l := range vc.script[:o.ScriptLen] {
+		if strings.HasPrefix(l, "(assert") && (strings.Contains(l, "(forall ") || strings.Contains(l, "(exists ")) {
+			continue
+		}
+		b.WriteString(l)
+		b.WriteString("\n")
+	}
+	b.WriteString("(assert (not " + o.Goal.S + "))\n(check-sat)\n")
+	if len(o.Values) > 0 {
 		b.WriteString("(get-value (")
 		for i, v := range o.Values {
 			if i > 0 {
